@@ -89,6 +89,15 @@ type Violation struct {
 	Count  int
 }
 
+// wallCap bounds the main batch of a check: what has not started by then is not evaluated (the evidence says so,
+// wall_cap_hit). A cap only ever shortens a run; it never produces a verdict.
+func (cx *Ctx) wallCap() time.Duration {
+	if cx.Tier == "thorough" {
+		return 3 * time.Hour
+	}
+	return 12 * time.Minute
+}
+
 func (cx *Ctx) phase(name string) {
 	fmt.Fprintf(os.Stderr, "[%6.1fs] %s\n", time.Since(cx.Start).Seconds(), name)
 }
